@@ -159,6 +159,9 @@ def execute(case):
             await c.bind(ctxs)
             return await c.request(0, 0, b"\xAA" * 13)
 
+    if case.get("eof_in_ack"):
+        # the stream ends inside server message m after k of its bytes (api "raw": the only connection is the key service one)
+        world.default_delivery = {"eof_at": list(case["eof_in_ack"])}
     with world.installed(ctx_factory=drive.stub_ctx_factory(cfg, record)):
         if flavour == "sync":
             out = drive.classify(sync_work)
@@ -242,6 +245,18 @@ def judge(case, out, world, peer, record, conn) -> t.Tuple[t.Optional[dict], dic
         return V("a", "client-pdu-undecodable", f"client wrote bytes ref.rpce cannot decode: {e!r}"), probes
     if sum(len(r) for r in raws) != sum(len(x) for x in conn.tx_log):
         return V("a", "client-partial-pdu", "client wrote a partial PDU"), probes
+    if case.get("eof_in_ack"):
+        # fail closed: the stream ended inside server message m; nothing of that message may be acted upon
+        m, k_ = case["eof_in_ack"]
+        probes["stream_ended_inside_handshake_pdu"] = 1
+        if out.kind != "raise":
+            return V("e", "truncated-ack-" + out.kind, f"the stream ended after {k_} bytes of server message {m} but the call did not raise"), probes
+        if len(pdus) > m + 1:
+            return V("e", "pdu-sent-after-truncated-ack", f"the stream ended after {k_} bytes of server message {m}, yet the client went on to send a {pdus[m + 1]['name']}"), probes
+        n_steps = sum(1 for r in record if r[0] == "step")
+        if n_steps > m + 1:
+            return V("e", "token-from-truncated-ack", f"the stream ended after {k_} bytes of server message {m}, yet step() #{n_steps} was fed from it"), probes
+        return None, probes
     steps = [r for r in record if r[0] == "step"]
     wraps = [r for r in record if r[0] == "wrap"]
     unwraps = [r for r in record if r[0] == "unwrap"]
@@ -560,7 +575,8 @@ class C15(common.Check):
             "vector lengths 0..3, cross-type acks, empty tokens) up to depth 8. Non-trivial = script contains a terminal, a rejection, "
             "a missing token or a cleared header-sign flag; distinct = distinct (cfg, script, flavour, api). Real-context cases: NTLM and "
             "Negotiate->NTLM handshakes (recorded through a transparent proxy) against a real acceptor, header signing on/off, conforming and "
-            "cut short by bind_nak / fault / EOF / request after 0..3 client PDUs.")
+            "cut short by bind_nak / fault / EOF / request after 0..3 client PDUs. Fault: the stream ends INSIDE a bind_ack / alter_context_resp (1..70 bytes in): the call must raise, "
+            "no further client PDU, no step() fed from the truncated message.")
     components = {"client": "real (RpcClient.bind/request, _sync_get_key/_async_get_key, AuthenticationProvider)",
                   "peer": "scripted (ref.rpce encoders)", "security context": "stub (StubCtx, records every call); plus the real pyspnego NTLM and Negotiate->NTLM initiator (behind a recording proxy) against a real acceptor",
                   "endpoint mapper": "model (RefDC)", "transport": "simulated"}
@@ -568,7 +584,7 @@ class C15(common.Check):
                    "an alter_context_resp answering a bind (and vice versa) is recorded, not judged",
                    "context results inside alter_context_resp are recorded, not judged"]
     required_fired = ("terminal_nak", "terminal_fault", "terminal_eof", "terminal_request", "hs_on", "hs_off", "conforming_success",
-                      "real_success", "real_ntlm", "real_negotiate", "real_terminal_nak", "real_terminal_eof", "bind_ack_answers_alter_context", "thread_pairs", "thread_overlap", "hs_first_ack_without_flag_later_with")
+                      "real_success", "real_ntlm", "real_negotiate", "real_terminal_nak", "real_terminal_eof", "bind_ack_answers_alter_context", "thread_pairs", "thread_overlap", "hs_first_ack_without_flag_later_with", "stream_ended_inside_handshake_pdu")
 
     def exhaustive(self, tier):
         return True
@@ -594,6 +610,17 @@ class C15(common.Check):
                             tails = req_replies if depth == k else [t_ for t_ in TERMINALS if t_ != ["response"]] + [["response"]]
                             for tail in tails:
                                 out.append({"cfg": cfg, "script": list(prefix) + [tail], "flavour": fl, "api": api, "seed": len(out)})
+        # the stream ends INSIDE a bind_ack / alter_context_resp (after the header and part of the body, or inside the header)
+        for legs in (2, 3):
+            for sig_hs in (1, 0):
+                for res in ("AN", "PN", "UN", "A"):
+                    for tok in ("tok", "none"):
+                        scr = [["ack", "pos", res, sig_hs, tok] for _ in range(legs)] + [["response"]]
+                        for fl in ("sync", "async"):
+                            for m in range(legs - 1 if tok == "tok" else 1):
+                                for k_ in (1, 15, 16, 17, 20, 24, 27, 28, 36, 44, 52, 60, 70):
+                                    if tier == "thorough" or (k_ + m + legs) % 2 == 0 or k_ in (17, 28):
+                                        out.append({"cfg": {"legs": legs, "empty_last": False, "sig": 16}, "script": scr, "flavour": fl, "api": "raw", "seed": len(out), "eof_in_ack": [m, k_]})
         # two handshakes at once from caller threads (one server advertises header signing, the other does not; 2 and 3 legs)
         from checks import threadpure
 
